@@ -651,3 +651,84 @@ def concat_rule(ctx: Ctx, rule: str = "CONCAT") -> int:
     ctx.check(ok, rule, f"{q}: concatenates the sequence of every bar, in order, into a fresh sequence", function=q,
               construct="Bar.to_sequence drops, filters or reorders bars", message="", file=fi.file, node=fi.node)
     return n
+
+
+LIST_MUTATORS = {"remove", "append", "insert", "pop", "extend", "clear", "sort", "reverse"}
+DICT_MUTATORS = {"pop", "popitem", "clear", "update", "setdefault"}
+
+
+def iter_mutation_rule(ctx: Ctx, functions, rule: str = "ITERMUT") -> int:
+    """No loop changes the size or order of the very container it is iterating (an element that slides into a freed slot is
+    skipped; a dictionary raises).  Iterating a copy (`list(x)`, `x[:]`, `x.copy()`, `sorted(x)`) is fine, and so is a
+    mutation that is immediately followed by leaving the loop."""
+    p = ctx.p
+    n_loops = 0
+    bad = []
+    for q in sorted(functions):
+        fi = p.functions.get(q)
+        if fi is None:
+            continue
+        for lp in ast.walk(fi.node):
+            if not isinstance(lp, ast.For):
+                continue
+            it = lp.iter
+            through = None
+            if isinstance(it, ast.Call) and isinstance(it.func, ast.Name) and it.func.id in ("enumerate", "reversed", "zip", "iter") and it.args:
+                it = it.args[0]
+            if isinstance(it, ast.Call) and isinstance(it.func, ast.Attribute) and it.func.attr in ("keys", "values", "items") and not it.args:
+                through, it = it.func.attr, it.func.value
+            if not isinstance(it, (ast.Name, ast.Attribute)):
+                continue
+            target = src(it)
+            n_loops += 1
+            for st in ast.walk(lp):
+                hit = None
+                if isinstance(st, ast.Call) and isinstance(st.func, ast.Attribute) and src(st.func.value) == target \
+                        and st.func.attr in (LIST_MUTATORS | DICT_MUTATORS):
+                    hit = st
+                elif isinstance(st, ast.Delete) and any(isinstance(t, ast.Subscript) and src(t.value) == target for t in st.targets):
+                    hit = st
+                elif isinstance(st, ast.Assign) and any(isinstance(t, ast.Subscript) and isinstance(t.slice, ast.Slice) and src(t.value) == target for t in st.targets):
+                    hit = st
+                if hit is None:
+                    continue
+                stmt = hit
+                while not isinstance(stmt, ast.stmt):
+                    stmt = stmt._parent
+                blk = next((getattr(stmt._parent, f) for f in ("body", "orelse", "finalbody") if stmt in getattr(stmt._parent, f, [])), [])
+                nxt = blk[blk.index(stmt) + 1] if stmt in blk and blk.index(stmt) + 1 < len(blk) else None
+                if isinstance(nxt, (ast.Break, ast.Return)):
+                    continue
+                bad.append((fi, lp, hit, target))
+    ctx.check(not bad, rule, f"no loop mutates the container it iterates ({n_loops} loops over named containers inspected)",
+              function=bad[0][0].qualname if bad else "*",
+              construct=f"loop over `{bad[0][3]}` changes `{bad[0][3]}` while iterating it" if bad else "ok",
+              message=f"`{short(bad[0][2], 80)}` inside `for ... in {short(bad[0][1].iter, 50)}`: after a removal the element that moves into the freed slot is "
+                      f"skipped (iterate a copy instead)" if bad else "",
+              file=bad[0][0].file if bad else next(iter(p.sources)), node=bad[0][2] if bad else None)
+    return n_loops
+
+
+def mutable_default_rule(ctx: Ctx, functions, rule: str = "MUTDEFAULT") -> int:
+    """No function on the property's path has a mutable default argument that it (or a callee it hands it to) could fill:
+    the object is created once and shared by every call that omits the argument."""
+    p = ctx.p
+    n = 0
+    bad = []
+    for q in sorted(functions):
+        fi = p.functions.get(q)
+        if fi is None:
+            continue
+        a = fi.node.args
+        names = [x.arg for x in a.posonlyargs + a.args][len(a.posonlyargs + a.args) - len(a.defaults):] if a.defaults else []
+        pairs = list(zip(names, a.defaults)) + [(k.arg, d) for k, d in zip(a.kwonlyargs, a.kw_defaults) if d is not None]
+        for name, d in pairs:
+            n += 1
+            if isinstance(d, (ast.List, ast.Dict, ast.Set)) or (isinstance(d, ast.Call) and isinstance(d.func, ast.Name) and d.func.id in ("list", "dict", "set")):
+                bad.append((fi, name, d))
+    ctx.check(not bad, rule, f"no mutable default argument on the property's path ({n} defaults inspected)",
+              function=bad[0][0].qualname if bad else "*",
+              construct=f"parameter `{bad[0][1]}` has a mutable default shared by all calls" if bad else "ok",
+              message=f"`{bad[0][1]}={short(bad[0][2])}`: state written into it by one call is seen by the next call that omits the argument" if bad else "",
+              file=bad[0][0].file if bad else next(iter(p.sources)), node=bad[0][2] if bad else None)
+    return n
